@@ -24,6 +24,14 @@ CLAIMS = {
     text="TLC enumerates every variable path up to the length bound over a nested datum and every array index around both ends, evaluates each on the LiquidInterp machine (model/find.rs semantics in LiquidValues) and checks zero-based/negative index meaning, first/last/size meaning and error-on-missing-step against declarative formulas; literal denotation is specified by canonical-decimal operators with an explicit digit-wise 64-bit range test; the harness renders every path and literal on the real parser and compares output or error.",
     note="bounded: paths <= 3 steps (quick) / 4 (thorough), arrays 0..5, ASCII; multi-key object printing only required to succeed.",
     tech=TECH_A, ref="DESIGN.md 7 C07"),
+ "C08": dict(
+    text="TLC runs every caller x partial-body scenario on the LiquidInterp machine (include = plain layer over the caller's scope and registers; render = sandbox + global layer + fresh registers, per iteration for render-for) and checks in every state that a rendered partial cannot change the caller's layers or registers (counters excepted) and resolves only its arguments and own assignments, that scopes unwind cleanly and that errors arise only at executed tags; the harness renders every scenario on the real parser and compares.",
+    note="bounded: partial bodies <= 1 statement (quick) / 2 (thorough) over 12 statements, nesting depth 2 (p -> p2), 17 invocation forms.",
+    tech=TECH_A, ref="DESIGN.md 7 C08"),
+ "C19": dict(
+    text="The partial store is part of the LiquidInterp state with one lookup rule per policy (eager: compiled map incl. failures; lazy: cache filled on first use incl. failures; on-demand: nothing kept); TLC checks on every scenario that each policy returns what the sources declare, that all three produce the same result, that a store warmed by earlier renders changes nothing and that errors arise only at executed tags; every scenario is then rendered 3 times on each of three real parsers and compared with the specification's result.",
+    note="bounded as C08; in-memory source only.",
+    tech=TECH_A, ref="DESIGN.md 7 C19"),
  "C18": dict(
     text="TLC explores every operation sequence of the explicit TLA+ specification LiquidRuntime up to the stated length from all 9 base maps, checks the declarative scope meaning against the delegation-chain form in every state, and every explored sequence is replayed on the real StackFrame/SandboxedStackFrame/GlobalFrame types with all lookups, roots, counters and register ownership compared after every operation.",
     note="bounded: length 3 (quick) / 4 exhaustive replay, 5 state-space, 6 reduced alphabet + random walks (thorough); values are scalars and one-key objects; trusted: TLC, the harness's encoding of observations.",
